@@ -7,6 +7,22 @@ from props import PROPS
 ALL = [json.loads(l) for l in open(os.path.join(ROOT, "properties.jsonl"))]
 fix_commits = subprocess.run(["git", "-C", "/repo", "log", "--format=%h %s", "b5b9f860..HEAD"], stdout=subprocess.PIPE, text=True).stdout.strip().splitlines()
 hook_commits = [l.split()[0] for l in fix_commits if l.split(" ", 1)[1].startswith("verif-hook:")]
+TECH = {
+ "C03": "runtime monitoring: observed orient2d / point-location answers judged by a pure integer oracle on the bit patterns of the f64 inputs (common power-of-two scaling, i128 determinants), adversarial near-degenerate generators; integer coordinate types judged where the products fit",
+ "C01": "runtime monitoring: every observed relate() matrix judged by an exact i128 arrangement DE-9IM oracle; metamorphic monitors (transpose, concrete entry point, re-spellings, sheared lattice); fixed-witness monitor for recorded findings; Miri leg on the same workload",
+ "C02": "runtime monitoring: observed Intersects/Contains/Within/coordinate_position answers judged against the exact DE-9IM oracle and against the geometry's own relate(); every type-pair dispatch path counted in evidence",
+ "C04": "runtime monitoring: observed BooleanOps / unary_union outputs judged by an exact point-membership oracle on quarter-lattice sample points of both operands' arrangement, by area bookkeeping (|A|+|B| = |A∩B|+|A∪B|, difference and xor identities, within a derived bound) and by ring closure / winding of the result; hooked fill-rule probe",
+ "C06": "runtime monitoring: observed centroids judged against an exact rational centre-of-mass oracle with a rounding bound derived from the input's conditioning; dimension-selection monitor on mixed collections",
+ "C07": "runtime monitoring: observed Euclidean distances judged against an exact rational minimum-distance oracle (squared distance as i128 rational), symmetric and per-type-pair; containment and nearest-neighbour branches hooked",
+ "C08": "runtime monitoring: observed hulls judged by exact integer convexity, containment and minimality oracles; bit-exact emulation of the pinned quick-hull separates the recorded finding from any other deviation; CPU-time hang watchdog",
+ "C09": "runtime monitoring: observed simplifications judged for subsequence, end points and exact tolerance (i128 point-segment distance / triangle area on the lattice pre-image) for RDP, RDP-idx, VW, VW-idx and VW-preserve; unbalanced-recursion stress inputs; CPU-time hang watchdog",
+ "C10": "runtime monitoring: observed triangulations / monotone pieces judged by exact area conservation, pairwise interior-disjointness and containment on the integer lattice; hooked monotone and stitch probes",
+ "C12": "runtime monitoring: observed closest/interior points judged by exact on-geometry membership and exact minimality against the rational oracle; payload compared bit for bit where the property demands the input vertex",
+ "C14": "runtime monitoring: observed is_valid / explain_invalidity judged against an exact OGC validity oracle on the lattice (both directions: accepts all valid, rejects all invalid) with error-kind and position checks",
+ "C15": "runtime monitoring: observed interpolate / locate / densify / points_along_line results on the Euclidean metric space judged against an exact arc-length reference (integer-length lines exactly, general lines within a derived bound), round trip and monotonicity; extreme-scale hypot stratum; Miri leg with deterministic floats",
+ "C16": "runtime monitoring: observed geodesic-family measures judged against each other (haversine vs geodesic vs rhumb bounds, destination/bearing/distance round trips) and against closed forms on meridians/equator; fixed-witness monitor",
+ "C19": "runtime monitoring: observed coords_iter / map_coords / bounding_rect / extremes judged against a shadow traversal of the lattice pre-image, for every type and every re-spelling",
+}
 checks, na = [], []
 for p in ALL:
     pid = p["id"]
@@ -23,7 +39,7 @@ for p in ALL:
         "engine": "gvh",
         "level_claimed": {"category": "exploration", "text": c.get("level_text", "Runtime monitoring: the real geo code is executed on seeded hostile workloads and every observed result is judged by an independent exact oracle; the verdict covers the executions observed, nothing more."), "design_ref": f"DESIGN.md section 3, {pid}"},
         "level_note": c.get("level_note", "Trusted base: the harness's exact rational oracle (i128, checked), the generators' domain filter, rustc. Held-on-observed only; reach is what the generators produce."),
-        "technique": c.get("technique", "runtime monitoring: reference-model oracle over recorded call/return events"),
+        "technique": c.get("technique", TECH.get(pid, "runtime monitoring: reference-model oracle over recorded call/return events")),
     })
 m = {
     "version": 1,
